@@ -52,6 +52,26 @@ Theorem C02_settles : forall depth s,
 Proof. intros depth s D R. apply round_settles; [exact D | exact (reachable_Inv depth s D R)]. Qed.
 Print Assumptions C02_settles.
 
+(* the quiet rule itself: once the reader has acknowledged everything the periodic tick sends no
+   HEARTBEAT (and otherwise it does: heartbeats legitimately continue while something is
+   unacknowledged) *)
+Theorem C02_heartbeat_iff_unacked : forall s,
+  snd (w_hbtick (sw s)) = [] <-> acked s = true.
+Proof.
+  intro s. unfold w_hbtick, acked. destruct (w_last (sw s) <? p_aab (sw s)); cbn [snd]; split; intro H;
+    try reflexivity; discriminate.
+Qed.
+Print Assumptions C02_heartbeat_iff_unacked.
+
+(* "then goes quiet", with the bound: after mu(s)+2 fault-free rounds every further round sends
+   nothing at all, the reader holds everything and the writer knows it *)
+Theorem C02_goes_quiet : forall depth s n,
+  0 <= depth -> reachable depth s -> (mu s + 2 <= n)%nat ->
+  round_sent depth (iter_round depth n s) = (iter_round depth n s, [])
+  /\ covered (iter_round depth n s) = true /\ acked (iter_round depth n s) = true.
+Proof. exact eventually_silent. Qed.
+Print Assumptions C02_goes_quiet.
+
 (* a round is itself a finite execution: all theorems apply again after any number of rounds *)
 Theorem C02_reachable_round : forall depth s,
   0 <= depth -> reachable depth s -> reachable depth (round depth s).
